@@ -311,3 +311,69 @@ Proof.
   apply IH. unfold sc_get, sc_set. rewrite alookup_aset_str. simpl.
   destruct (String.eqb k s); [reflexivity|exact H].
 Qed.
+
+(* ------------------------------------------------------------------ options *)
+Fixpoint last_pass (opts : list wopt) (acc : string) : string :=
+  match opts with [] => acc | OPass p :: r => last_pass r p | _ :: r => last_pass r acc end.
+
+Lemma fold_opts opts : forall r,
+  let w := fold_left apply_opt opts r in
+  w_addr w = w_addr r /\
+  (w_type w = TCluster <-> (w_type r = TCluster \/ In OCluster opts)) /\
+  (w_tls w = true <-> (w_tls r = true \/ In OTLS opts)) /\
+  w_pass w = last_pass opts (w_pass r).
+Proof.
+  induction opts as [|o t IH]; intro r; simpl.
+  - repeat split; tauto.
+  - destruct (IH (apply_opt r o)) as [Ha [Ht [Hl Hp]]]. simpl in *. rewrite Ha, Ht, Hl, Hp.
+    destruct o; simpl; repeat split; try tauto; try (intros [H|H]; auto; fail);
+      try (intros [H|[H|H]]; auto; discriminate).
+Qed.
+
+Lemma new_redis_fields c :
+  new_redis c = mkw (c_host c) (if String.eqb (c_type c) "cluster" then TCluster else TNode) (c_pass c) (c_tls c).
+Proof.
+  unfold new_redis, new_w. destruct (String.eqb (c_type c) "cluster"); destruct (c_tls c);
+    destruct (c_pass c) as [|ch rest] eqn:E; simpl; reflexivity.
+Qed.
+
+(* ------------------------------------------------------------------ blocking nodes *)
+Definition binv (s : bst) : Prop :=
+  (forall a id, In (a, id) (bs_mgr s) -> id < bs_next s /\ ~ In id (bs_nodes s))%nat /\
+  (forall id, In id (bs_nodes s) -> id < bs_next s)%nat /\
+  (forall id, In id (bs_closed s) -> In id (bs_nodes s)).
+
+Lemma bstep_inv s o : binv s -> binv (bstep s o).
+Proof.
+  intros [Hm [Hn Hc]]. destruct o as [a| |id]; simpl.
+  - destruct (alookup String.eqb a (bs_mgr s)); [split; [|split]; assumption|].
+    unfold binv; simpl. split; [|split].
+    + intros a' id [H|H].
+      * inversion H; subst. split; [lia|]. intro X. apply Hn in X. lia.
+      * destruct (Hm _ _ H). split; [lia|assumption].
+    + intros id H. apply Hn in H. lia.
+    + assumption.
+  - unfold binv; simpl. split; [|split].
+    + intros a id H. destruct (Hm _ _ H) as [H1 H2]. split; [lia|]. intros [X|X]; [lia|tauto].
+    + intros id [H|H]; [lia|apply Hn in H; lia].
+    + intros id H. right. apply Hc. assumption.
+  - destruct (existsb (Nat.eqb id) (bs_nodes s)) eqn:E; [|split; [|split]; assumption].
+    unfold binv; simpl. split; [|split]; try assumption.
+    intros id' [H|H]; [|apply Hc; assumption].
+    subst. apply existsb_exists in E as [x [Hx Hx2]]. apply Nat.eqb_eq in Hx2. subst. assumption.
+Qed.
+
+Lemma brun_inv h : forall s, binv s -> binv (fold_left bstep h s).
+Proof. induction h as [|o t IH]; intros s H; simpl; [assumption|]. apply IH, bstep_inv, H. Qed.
+
+Lemma closed_only_by_close h : forall s id,
+  In id (bs_closed (fold_left bstep h s)) -> In id (bs_closed s) \/ In (BClose id) h.
+Proof.
+  induction h as [|o t IH]; intros s id H; simpl in *; [left; assumption|].
+  apply IH in H as [H|H]; [|right; right; assumption].
+  destruct o as [a| |id']; simpl in H.
+  - destruct (alookup String.eqb a (bs_mgr s)); simpl in H; left; assumption.
+  - left; assumption.
+  - destruct (existsb (Nat.eqb id') (bs_nodes s)); simpl in H; [|left; assumption].
+    destruct H as [H|H]; [subst; right; left; reflexivity|left; assumption].
+Qed.
